@@ -159,6 +159,12 @@ def rocTG (Z : Ind F) (p : Int) (inp : String) (hk : Z.kind = .roc p inp) (hp : 
     refine roc_congr _ _ p inp (sameCol_last inp H c _ Z.name (hind _ _ _)) ?_
     rw [Ctx.prevExists_append_cons, Ctx.prevExists_append_cons]
 
+end Hex
+
+namespace Hex.Chain
+set_option linter.unusedSectionVars false
+variable {F : Type} [PyF F]
+
 /-! ### engines given as lawful components -/
 
 /-- an engine `E` (a function on candle lists: a tree's `calculate()`, or several of them in a row)
@@ -302,9 +308,215 @@ theorem macdTreeComp_reads :
   intro k hk
   rw [allNames_macd]
   simp [macdTreeComp, macdComp, TComp.seq, macdCompF, macdCompS, macdCompP, leafComp, dataComp, emaT,
-    macdEf_name, macdEs_name, macdP_name] at hk ⊢
-  trace_state; sorry
+    macdK, macdT, macdEf_name, macdEs_name, macdP_name] at hk ⊢
+  rcases hk with h | h | h | h | h | h <;> simp [h]
 
 end macd
 
-end Hex
+/-! ### the dependent leaf -/
+
+/-- `inp` addresses what is stored under the key `main`: the key itself (a scalar reading) or a
+dotted field `main.fld` of a dict reading -/
+def InputOf (main inp : String) : Prop :=
+  (inp = main ∧ IsKey main) ∨ ∃ fld, splitDot inp = [main, fld]
+
+theorem InputOf.sees {main inp : String} (h : InputOf main inp) (keys : List String) (hm : main ∈ keys) :
+    Sees F keys inp := by
+  rcases h with ⟨rfl, hk⟩ | ⟨fld, hs⟩
+  · exact sees_key keys _ hk hm
+  · exact sees_dotted keys inp main fld hs hm
+
+theorem InputOf.indep {main inp : String} (h : InputOf main inp) (name : String) (hne : name ≠ main) :
+    Indep F name inp := by
+  rcases h with ⟨rfl, hk⟩ | ⟨fld, hs⟩
+  · exact indep_key name _ hk hne
+  · exact TSI.indep_dotted name inp main fld hs hne
+
+/-- the kinds of a dependent leaf over the input `inp`, with the parameter conditions of their tolerant
+contracts (`period ≥ 1`; ROC `≥ 0`) -/
+inductive DepKind (inp : String) : Kind F → Type
+  | sma (p : Int) : 1 ≤ p → DepKind inp (.sma p inp)
+  | ema (p : Int) (sm : Num F) : 1 ≤ p → DepKind inp (.ema p inp sm)
+  | rma (p : Int) : 1 ≤ p → DepKind inp (.rma p inp)
+  | wma (p : Int) : 1 ≤ p → DepKind inp (.wma p inp)
+  | roc (p : Int) : 0 ≤ p → DepKind inp (.roc p inp)
+
+/-- the tolerant contract of a dependent leaf reading under `main` -/
+def DepKind.contract {inp : String} {k : Kind F} (d : DepKind (F := F) inp k) (Z : Ind F) (hk : Z.kind = k)
+    (hname : IsKey Z.name) (main : String) (hin : InputOf main inp) (hne : Z.name ≠ main) : TContract Z :=
+  match k, d, hk with
+  | _, .sma p hp, hk => smaTG Z p inp hk hp hname [main] (hin.sees _ (by simp)) (hin.indep _ hne)
+  | _, .ema p sm hp, hk => emaTG Z p inp sm hk hp hname [main] (hin.sees _ (by simp)) (hin.indep _ hne)
+  | _, .rma p hp, hk => rmaTG Z p inp hk hp hname [main] (hin.sees _ (by simp)) (hin.indep _ hne)
+  | _, .wma p hp, hk => wmaT Z p inp hk hp hname [main] (hin.sees _ (by simp)) (hin.indep _ hne)
+  | _, .roc p hp, hk => rocTG Z p inp hk hp hname [main] (hin.sees _ (by simp)) (hin.indep _ hne)
+
+theorem DepKind.isLeaf {inp : String} {k : Kind F} (d : DepKind (F := F) inp k) (name : String) (round : Nat) :
+    IsLeaf (mkTop k name round) := by
+  cases d <;> exact isLeaf_mkTop _ _ _ rfl rfl
+
+/-- the dependent member `B = mkTop k nameB round` as a tree component -/
+def depComp {inp : String} {k : Kind F} (d : DepKind (F := F) inp k) (nameB : String) (round : Nat)
+    (hname : IsKey nameB) (main : String) (hin : InputOf main inp) (hne : nameB ≠ main) :
+    TreeComp (mkTop k nameB round) :=
+  TreeComp.ofLeaf _ (d.isLeaf nameB round)
+    (d.contract _ (mkTop_kind _ _ _) (by rw [mkTop_name]; exact hname) main hin (by rw [mkTop_name]; exact hne))
+
+/-! ### the pair -/
+
+/-- the engine of the pair: `A.calculate()` then `B.calculate()` on the same list -/
+abbrev pairEngine (A B : Ind F) : List (Candle F) → PyM (List (Candle F)) :=
+  engSeq (engineCalc A) (engineCalc B)
+
+/-- **The pair as a lawful component**: for a source tree given as a component that reads within its own
+names, and ANY dependent tree given as a component (in particular `depComp`), provided the two trees'
+names are disjoint. -/
+def pairComp {A B : Ind F} (SA : TreeComp A) (SB : TreeComp B) (hclosed : SA.ReadsWithin A.allNames)
+    (hdis : ∀ k ∈ A.allNames, k ∉ B.allNames) : EngComp (pairEngine A B) (A.allNames ++ B.allNames) :=
+  SA.seq SB (seqOK_of_names SA SB hclosed hdis hdis)
+
+/-- **`PairSpec`**: the row-major spec of the pair on raw candles – one row step = `A`'s row step,
+then `B`'s reading from the prefix – with its step laws and the engine-level refinement
+(`EngSpec.engine`: "`A.calculate()` then `B.calculate()`" on `done ++ raw` returns iff the pair's
+row-major run over the longer stream does, with the same candles). -/
+def pairSpec {A B : Ind F} (SA : TreeComp A) (SB : TreeComp B) (hclosed : SA.ReadsWithin A.allNames)
+    (hdis : ∀ k ∈ A.allNames, k ∉ B.allNames) : EngSpec (pairEngine A B) (A.allNames ++ B.allNames) :=
+  (pairComp SA SB hclosed hdis).spec
+
+/-- one row step of the pair, spelled out: `A`'s component value on the prefix, stored; then `B`'s on
+the prefix and the candle just stored -/
+theorem pairSpec_rowStep {A B : Ind F} (SA : TreeComp A) (SB : TreeComp B) (hclosed : SA.ReadsWithin A.allNames)
+    (hdis : ∀ k ∈ A.allNames, k ∉ B.allNames) (H : List (Candle F)) (r : Candle F) :
+    Gen.rowStep (pairSpec SA SB hclosed hdis).S H r = (do
+      let x ← SA.X.val H r
+      let q ← SB.X.val H (SA.X.app x r)
+      pure (H ++ [SB.X.app q (SA.X.app x r)])) := by
+  show Gen.rowStep ((TComp.seq SA.X SB.X).spec _) H r = _
+  rw [TComp.rowStep_spec]
+  unfold TComp.rowStep TComp.seq
+  simp only [bind, Except.bind, pure, Except.pure]
+  cases SA.X.val H r with
+  | error e => rfl
+  | ok x =>
+    simp only
+    cases SB.X.val H (SA.X.app x r) <;> rfl
+
+/-- **Engine level (goal 2)**, stated directly. -/
+theorem pair_engine {A B : Ind F} (SA : TreeComp A) (SB : TreeComp B) (hclosed : SA.ReadsWithin A.allNames)
+    (hdis : ∀ k ∈ A.allNames, k ∉ B.allNames) (raw₁ raw₂ done out : List (Candle F))
+    (h₁ : Gen.rowMajor (pairSpec SA SB hclosed hdis).S raw₁ = .ok done)
+    (hp₁ : ∀ c ∈ raw₁, Plain c) (hp₂ : ∀ c ∈ raw₂, Plain c) :
+    ((do let c ← engineCalc A (done ++ raw₂); engineCalc B c) = .ok out ↔
+      Gen.rowMajor (pairSpec SA SB hclosed hdis).S (raw₁ ++ raw₂) = .ok out) :=
+  (pairSpec SA SB hclosed hdis).engine raw₁ raw₂ done out h₁ hp₁ hp₂
+
+/-! ### an engine on a manager: construction, `calculate()`, appends -/
+
+section run
+variable {E : List (Candle F) → PyM (List (Candle F))} {names : List String}
+
+/-- one append on an object whose `calculate()` is the engine `E`: the manager appends, then `E` -/
+def engAppend (cfg : MgrCfg) (E : List (Candle F) → PyM (List (Candle F))) (cs ch : List (Candle F)) :
+    PyM (List (Candle F)) := do
+  let m ← Manager.append { cfg := cfg, candles := cs } ch
+  E m.candles
+
+/-- construction over `init`, `calculate()`, then the appends -/
+def engRun (cfg : MgrCfg) (E : List (Candle F) → PyM (List (Candle F))) (init : List (Candle F))
+    (chunks : List (List (Candle F))) : PyM (List (Candle F)) := do
+  let m ← Manager.init cfg init
+  let cs ← E m.candles
+  chunks.foldlM (engAppend cfg E) cs
+
+theorem EngSpec.appends_refine (T : EngSpec E names) (M : MgrSpec F) (chunks : List (List (Candle F))) :
+    ∀ (s done : List (Candle F)), Gen.rowMajor T.S (M.spec s) = .ok done →
+      M.Ok (s ++ chunks.flatten) → ∀ snap,
+      chunks.foldlM (engAppend M.cfg E) done = .ok snap →
+      Gen.rowMajor T.S (M.spec (s ++ chunks.flatten)) = .ok snap := by
+  induction chunks with
+  | nil =>
+    intro s done h _ snap hsnap
+    simp only [List.foldlM_nil, pure, Except.pure] at hsnap
+    cases hsnap
+    simpa using h
+  | cons ch rest ih =>
+    intro s done h hok snap hsnap
+    have hok' : M.Ok ((s ++ ch) ++ rest.flatten) := by simpa [List.append_assoc] using hok
+    have hsch : M.Ok (s ++ ch) := M.ok_left _ _ hok'
+    have hplainS : ∀ c ∈ M.spec s, Plain c := M.spec_plain s (M.ok_left _ _ hsch)
+    simp only [List.foldlM_cons, List.flatten_cons] at hsnap ⊢
+    have key : ∃ (raw₁ raw₂ d₁ : List (Candle F)), Gen.rowMajor T.S raw₁ = .ok d₁ ∧
+        (∀ c ∈ raw₁, Plain c) ∧ (∀ c ∈ raw₂, Plain c) ∧ raw₁ ++ raw₂ = M.spec (s ++ ch) ∧
+        engAppend M.cfg E done ch = E (d₁ ++ raw₂) := by
+      by_cases hch : ch = []
+      · subst hch
+        refine ⟨M.spec s, [], done, h, hplainS, by simp, by simp, ?_⟩
+        simp [engAppend, Manager.append, bind, Except.bind]
+      · obtain ⟨k, Q, hQ, _, ht, hres⟩ := M.append s ch done hsch hch
+          (Gen.rowMajor_shape T.law _ done hplainS h).1.dressed
+        refine ⟨(M.spec s).take k, Q, done.take k, Gen.rowMajor_take T.law _ done hplainS h k,
+          fun c hc => hplainS c (List.mem_of_mem_take hc), hQ, hres.symm, ?_⟩
+        have hne : ch.isEmpty = false := by cases ch <;> simp at hch ⊢
+        simp only [engAppend, Manager.append, hne, Bool.false_eq_true, if_false, ht, bind, Except.bind, pure,
+          Except.pure]
+    obtain ⟨raw₁, raw₂, d₁, hr₁, hp₁, hp₂, hsplit, happ⟩ := key
+    rw [happ] at hsnap
+    rw [← List.append_assoc]
+    cases hc : E (d₁ ++ raw₂) with
+    | error e => rw [hc] at hsnap; cases hsnap
+    | ok out =>
+      have hr := (T.engine raw₁ raw₂ d₁ out hr₁ hp₁ hp₂).1 hc
+      rw [hsplit] at hr
+      rw [hc] at hsnap
+      simp only [bind, Except.bind] at hsnap
+      exact ih (s ++ ch) out hr hok' snap hsnap
+
+/-- **Generic refinement for an engine**: whenever the live history (construction over `init`,
+`calculate()`, any appends) returns, its candles are the row-major run over the manager spec of the
+whole stream. -/
+theorem EngSpec.live_refines (T : EngSpec E names) (M : MgrSpec F) (init : List (Candle F))
+    (chunks : List (List (Candle F))) (hok : M.Ok (init ++ chunks.flatten)) (snap : List (Candle F))
+    (hsnap : engRun M.cfg E init chunks = .ok snap) :
+    Gen.rowMajor T.S (M.spec (init ++ chunks.flatten)) = .ok snap := by
+  have hinit : M.Ok init := M.ok_left _ _ hok
+  unfold engRun Manager.init at hsnap
+  rw [M.init init hinit] at hsnap
+  simp only [bind, Except.bind, pure, Except.pure] at hsnap
+  have h0 : Gen.rowMajor T.S ([] : List (Candle F)) = .ok [] := rfl
+  cases hc : E (M.spec init) with
+  | error e => rw [hc] at hsnap; cases hsnap
+  | ok out =>
+    have hr := (T.engine [] (M.spec init) [] out h0 (by simp) (M.spec_plain init hinit)).1 (by simpa using hc)
+    simp only [List.nil_append] at hr
+    rw [hc] at hsnap
+    simp only at hsnap
+    exact T.appends_refine M chunks init out hr hok snap hsnap
+
+/-- the batch run returns iff the row-major run over the manager spec does, with the same candles -/
+theorem EngSpec.batch_iff (T : EngSpec E names) (M : MgrSpec F) (stream : List (Candle F))
+    (hok : M.Ok stream) (out : List (Candle F)) :
+    engRun M.cfg E stream [] = .ok out ↔ Gen.rowMajor T.S (M.spec stream) = .ok out := by
+  constructor
+  · intro h
+    have := T.live_refines M stream [] (by simpa using hok) out h
+    simpa using this
+  · intro h
+    unfold engRun Manager.init
+    rw [M.init stream hok]
+    simp only [bind, Except.bind, pure, Except.pure, List.foldlM_nil]
+    have h0 : Gen.rowMajor T.S ([] : List (Candle F)) = .ok [] := rfl
+    have he := (T.engine [] (M.spec stream) [] out h0 (by simp) (M.spec_plain stream hok)).2 (by simpa using h)
+    simp only [List.nil_append] at he
+    rw [he]
+
+/-- **Schedule independence for an engine**: if the live history returns, the batch run over the whole
+stream returns the same candles. -/
+theorem EngSpec.live_eq_batch (T : EngSpec E names) (M : MgrSpec F) (init : List (Candle F))
+    (chunks : List (List (Candle F))) (hok : M.Ok (init ++ chunks.flatten)) (snap : List (Candle F))
+    (hsnap : engRun M.cfg E init chunks = .ok snap) :
+    engRun M.cfg E (init ++ chunks.flatten) [] = .ok snap :=
+  (T.batch_iff M _ hok snap).2 (T.live_refines M init chunks hok snap hsnap)
+
+end run
+
+end Hex.Chain
